@@ -20,6 +20,9 @@ PrefixesCtx == {<<120, 46, 97, 115, 109, 32>>,
                 <<123, 99, 125, 46, 97, 115, 109, 32>>,
                 <<97, 115, 109, 32, 120, 46, 101, 110, 100, 32>>}
 
+\* inside an asm body: `asm `
+PrefixesAsm == {<<97, 115, 109, 32>>}
+
 VARIABLES input, st, toks, done, phase, plen
 vars == <<input, st, toks, done, phase, plen>>
 
